@@ -11,9 +11,9 @@ import (
 	"github.com/flant/shell-operator/pkg/metric"
 )
 
-// VerifAssemble builds a ShellOperator on the given (fake) kube client with the hooks found in
+// VerifAssembleC01 builds a ShellOperator on the given (fake) kube client with the hooks found in
 // hooksDir, the way assembleShellOperator does, without HTTP servers and webhooks.
-func VerifAssemble(ctx context.Context, client *klient.Client, hooksDir, tempDir string, ms, hms metric.Storage) (*ShellOperator, error) {
+func VerifAssembleC01(ctx context.Context, client *klient.Client, hooksDir, tempDir string, ms, hms metric.Storage) (*ShellOperator, error) {
 	op := NewShellOperator(ctx, WithLogger(log.NewNop()))
 	op.MetricStorage = ms
 	op.HookMetricStorage = hms
